@@ -132,10 +132,10 @@ def nullable(t):
 
 
 def roundtrippable(t, seen=()):
-    """The property's domain, from its text: 64-bit integers, no unit-vs-none distinctions (an Option around a payload that
+    """The property's domain, from its text: integers (all Rust widths, 128-bit included since c8ac377), no unit-vs-none distinctions (an Option around a payload that
     can itself be none), no embedded template values (those are the handle clause)."""
     k = t[0]
-    if k in ('int', 'uint'): return t[1] <= 64
+    if k in ('int', 'uint'): return True
     if k == 'value': return False
     if k == 'option': return (not nullable(t[1])) and roundtrippable(t[1], seen)
     if k in ('newtype', 'seq'): return roundtrippable(t[1], seen)
@@ -1187,7 +1187,7 @@ def evaluate(cases, trees, A, kernel=False):
                         viol.append((c, trees[i], prof, "json", "%s: %s" % (what, why)))
                 if not rel: hist["json:checked"] += 1
         hist["type:" + name] += 1
-        hist["roundtrippable" if rtable else ("embedded-values" if has_value(t) else "outside-domain (unit/none, 128-bit)")] += 1
+        hist["roundtrippable" if rtable else ("embedded-values" if has_value(t) else "outside-domain (unit vs none)")] += 1
         if trees[i] is not None:
             dep = depth_of(trees[i][1])
             hist["depth=%d" % dep] += 1
